@@ -8,8 +8,8 @@ LEVEL = "translation_validation"
 PROP = "C05"
 PROPS_FILE = "C05.v"
 BACKENDS = [("inplace", [0]), ("ir", [0, 1, 2, 3]), ("bc", [0, 2, 3]), ("jit", [0, 2, 3])]
-COUNTS_QUICK = {"scancond": 80, "framealias": 40, "scanclear": 60, "emptyspin": 40, "mulcounter": 60, "loopio": 40, "iopressure": 120, "diverge": 120, "uniform": 150, "macro": 60, "affine": 60}
-COUNTS_THOROUGH = {"scancond": 1500, "framealias": 800, "scanclear": 1200, "emptyspin": 600, "mulcounter": 1500, "loopio": 1000, "iopressure": 3000, "diverge": 1500, "uniform": 3000, "macro": 1000, "affine": 1000}
+COUNTS_QUICK = {"evenstep": 80, "scancond": 80, "framealias": 40, "scanclear": 60, "emptyspin": 40, "mulcounter": 60, "loopio": 40, "iopressure": 120, "diverge": 120, "uniform": 150, "macro": 60, "affine": 60}
+COUNTS_THOROUGH = {"evenstep": 1500, "scancond": 1500, "framealias": 800, "scanclear": 1200, "emptyspin": 600, "mulcounter": 1500, "loopio": 1000, "iopressure": 3000, "diverge": 1500, "uniform": 3000, "macro": 1000, "affine": 1000}
 WINDOW_MS = 400
 
 
